@@ -90,7 +90,7 @@ def g_trailing(r, all_present=False):
         if kind == "int":
             return ber.Node(ber.UNIV, False, 2, content=bytes([r.randrange(0, 128)]), kind="TRAIL")
         return ber.Node(ber.UNIV, True, 16, children=[], kind="TRAIL")
-    cls, num = r.choice([(ber.CTX, r.randrange(20, 31)), (ber.CTX, r.choice([31, 127, 128, 16384, 2**21])), (ber.PRIV, r.randrange(0, 40)),
+    cls, num = r.choice([(ber.CTX, r.randrange(20, 31)), (ber.CTX, r.choice([31, 127, 128, 16384, 2**21])), (ber.CTX, r.choice([2**35, 2**63, 2**64 + 1, 2**70])), (ber.PRIV, r.randrange(0, 40)),
                          (ber.CTX, 99), (ber.PRIV, 2**14)])
     if r.random() < 0.5:
         n = ber.Node(cls, False, num, content=r.randbytes(r.choice([0, 1, 3, 130])), kind="TRAIL")
